@@ -12,6 +12,8 @@ pub enum Obs {
     AddExit { key: u64, cost: i64, added: bool, victims: Option<Vec<(u64, i64)>>, max_cost: i64, used: i64, key_costs: Vec<(u64, i64)> },
     /// a get-batch handed to the policy: `kept` as reported by the push
     Push { keys: Vec<u64>, kept: bool, queue_len: usize, closed: bool },
+    /// an in-place cost change of a charged key (`SampledLFU::update`)
+    CostUpdate { key: u64, prev: i64, cost: i64 },
     /// the policy worker applied a batch
     Applied { keys: Vec<u64> },
 }
